@@ -171,6 +171,25 @@ def check(prog: Program, tier: str) -> Result:
     return res
 
 
+_NEG_OP = {ast.Eq: ast.NotEq, ast.NotEq: ast.Eq, ast.Lt: ast.GtE, ast.GtE: ast.Lt, ast.Gt: ast.LtE, ast.LtE: ast.Gt}
+
+
+def _negated(e: ast.expr) -> ast.expr:
+    if isinstance(e, ast.UnaryOp) and isinstance(e.op, ast.Not):
+        return e.operand
+    if isinstance(e, ast.Compare) and len(e.ops) == 1 and type(e.ops[0]) in _NEG_OP:
+        return ast.Compare(left=e.left, ops=[_NEG_OP[type(e.ops[0])]()], comparators=e.comparators)
+    if isinstance(e, ast.BoolOp):
+        return ast.BoolOp(op=ast.And() if isinstance(e.op, ast.Or) else ast.Or(), values=[_negated(v) for v in e.values])
+    return ast.UnaryOp(op=ast.Not(), operand=e)
+
+
+def _running_condition(guard: ast.If, call: ast.Call) -> ast.expr:
+    """the condition under which `call` runs: the guard's test when it is in the body, its negation when in the else branch"""
+    in_else = any(call is x for s_ in guard.orelse for x in ast.walk(s_))
+    return ast.fix_missing_locations(_negated(guard.test)) if in_else else guard.test
+
+
 def _check_duration_definition(prog: Program, res: Result):
     """R07.7 pairing of each direction's own data in find_peak_durations; R07.8 the duration is where the
     peak-step response reaches the maximum of the nominal two-day response"""
@@ -244,7 +263,7 @@ def _check_duration_definition(prog: Program, res: Result):
                           f"the {'cooling' if tag == 'cl' else 'heating'} peak duration mixes data of the two directions: {per_arg}")
         # stored under the same direction, for this month; absent peak -> sentinel
         guard = next((n for n in ast.walk(loops[0]) if isinstance(n, ast.If) and any(c is x for x in ast.walk(n))), None)
-        gsrc = resolve(guard.test, guard.lineno) if guard is not None else ""
+        gsrc = resolve(_running_condition(guard, c), guard.lineno) if guard is not None else ""
         okg = guard is not None and tags(gsrc) == {tag} and ("!=0" in gsrc.replace(" ", "") or ">0" in gsrc.replace(" ", ""))
         res.ob("R07.7", f"the {'cooling' if tag == 'cl' else 'heating'} simulation runs only for a non-zero {tag} peak", okg, prog.loc(fi, guard) if guard is not None else prog.loc(fi, c))
         if not okg:
@@ -256,7 +275,19 @@ def _check_duration_definition(prog: Program, res: Result):
         stores = [s_ for s_ in stores if s_.lineno < nxt or tag == "hl"]
         store = [s_ for s_ in stores if attr_chain(s_.targets[0].value) == f"self.monthly_peak_{tag}_duration" and ast.unparse(s_.targets[0].slice) == iv]
         wrong = [s_ for s_ in stores if s_ not in store and (s_.lineno < nxt)]
-        oks = bool(store) and not wrong and isinstance(store[0].value, ast.Name) and any(any(c is x for x in ast.walk(d)) for d in defs.get(store[0].value.id, []) + tuple_defs.get(store[0].value.id, []))
+
+        def from_call(nm, depth=0):
+            # the local is bound to the simulation's result, directly or through a plain copy (result = duration)
+            for d in defs.get(nm, []) + tuple_defs.get(nm, []):
+                if not (c.lineno <= d.lineno < nxt or tag == "hl" and c.lineno <= d.lineno):
+                    continue
+                if any(c is x for x in ast.walk(d)):
+                    return True
+                if depth < 3 and isinstance(d.value, ast.Name) and d.value.id != nm and from_call(d.value.id, depth + 1):
+                    return True
+            return False
+
+        oks = bool(store) and not wrong and isinstance(store[0].value, ast.Name) and from_call(store[0].value.id)
         res.ob("R07.7", f"its result is stored in monthly_peak_{tag}_duration[{iv}]", oks, prog.loc(fi, store[0]) if store else prog.loc(fi, c))
         if not oks:
             res.violation("R07.7", f"store|{tag}", prog.loc(fi, c), q, f"the simulated {tag} duration is not what is stored in monthly_peak_{tag}_duration[{iv}]")
